@@ -51,6 +51,17 @@ def run(ctx):
     )
     ctx.section(c02._escape, ctx, index)
     ctx.section(c02._typewalk, ctx, index, "C04.typewalk")
+
+    def _sec_inputmut():
+        from . import c10
+
+        ents = []
+        for q in ("cdd.class_.emit.class_", "cdd.function.emit.function", "cdd.argparse_function.emit.argparse_function"):
+            f_ = index.func(q)
+            ents.append((f_, f_.params[0]))
+        c10.inputmut_rule(ctx, "C04.inputmut", ents, "the code emitted next from the same description no longer exposes the described interface")
+
+    ctx.section(_sec_inputmut)
     ctx.section(_nodefault, ctx, index, env)
     ctx.section(_classdefault, ctx, index, env)
     ctx.section(_required, ctx, index)
